@@ -71,6 +71,8 @@ def impl(case):
                 "inputs_unchanged": a1.tobytes() == b1 and a2.tobytes() == b2}
     # associate: poses carry a tag (index within their own trajectory) in position and orientation
     t1, t2 = _traj(s1, range(len(s1))), _traj(s2, range(len(s2)))
+    if (len(s1) + len(s2)) % 2:   # the 4x4 matrices were already looked at (transform(), check(), a plot ...) before the association
+        t1.poses_se3, t2.poses_se3
     snap1, snap2 = _snapshot(t1), _snapshot(t2)
     ref1, ref2 = copy.deepcopy(t1), copy.deepcopy(t2)
     try:
@@ -82,6 +84,8 @@ def impl(case):
 
     def side(r, ref):
         out, intact = [], True
+        if not (r.num_poses == len(r.timestamps) == len(r.positions_xyz) == len(r.orientations_quat_wxyz) == len(r.poses_se3)):
+            return [[hexf(x), -1] for x in r.timestamps], False    # the views of a result disagree about its length
         for k in range(r.num_poses):
             tag = int(round(r.positions_xyz[k][0]))
             ok = (0 <= tag < ref.num_poses
